@@ -1,11 +1,13 @@
 #!/bin/bash
-# usage: tools/seedtest.sh <patch.diff> <ID> [tier]   — applies a seeded change to /repo, runs the check, reverts.
+# usage: tools/seedtest.sh <patch.diff> <ID> [tier]
+# Applies a seeded change to a scratch worktree of /repo (never to /repo itself), runs the check against it
+# through VERIF_REPO (outputs go to *-alt directories), and removes the worktree with its build output.
 set -u
-patch=$1; id=$2; tier=${3:-quick}
-cd /repo || exit 3
-if ! git diff --quiet; then echo "/repo has uncommitted changes, refusing"; exit 3; fi
-git apply "$patch" || { echo "patch does not apply"; exit 3; }
-cd /verif && ./vcheck.sh run "$id" --tier "$tier"; rc=$?
-git -C /repo checkout -- . ; git -C /repo clean -fdq
-echo "seedtest $patch $id $tier -> exit $rc"
+patch=$(readlink -f "$1"); id=$2; tier=${3:-quick}
+wt=/tmp/wt/seedtest-$$-$id
+git -C /repo worktree add -q --detach "$wt" HEAD || exit 3
+if ! git -C "$wt" apply "$patch"; then echo "patch does not apply"; git -C /repo worktree remove --force "$wt"; exit 3; fi
+cd /verif && VERIF_REPO="$wt" ./vcheck.sh run "$id" --tier "$tier"; rc=$?
+git -C /repo worktree remove --force "$wt"; rm -rf "/verif/.build/$id-alt"
+echo "seedtest $1 $id $tier -> exit $rc"
 exit $rc
